@@ -19,7 +19,8 @@ from yowsup.layers.protocol_messages.protocolentities import TextMessageProtocol
 ID = "C17"
 LEVEL = "exploration"
 RULE = ("generated histories of 2-12 operations over 2-3 accounts with automatic trust on/off per account: message(from, to), "
-        "group message(from) to the group of all accounts (decided per member), "
+        "group message(from) to the group of all accounts (decided per member), one-to-one message delivered under the broadcast "
+        "address with the sender as participant (only the refusal is asserted), "
         "reinstall(account) (fresh profile directory: new identity, first login uploads new keys), restart(account), notify(owner, contact) "
         "(the server's identity-change notification, answered by the library with a key-bundle fetch); every operation "
         "is settled before the next. After each message the model decides whether it must be delivered (the sender accepts the "
@@ -236,6 +237,65 @@ def _run(case, out, w):
                 if other not in recipients and any(e.getTag() == "message" and e.getId() == ent.getId() for e in clients[other].app_got):
                     out.fail("delivery", "delivery:message_reached_someone_else", {"step": step})
                     return out
+        elif kind == "bsend":
+            # a one-to-one encrypted message that reaches the recipient labelled as a broadcast (from="status@broadcast",
+            # participant=sender), as status updates and broadcast lists arrive.  Receipts for it cannot be routed back by the
+            # server double, so only the refusal is asserted: nothing from an unaccepted identity is shown or pinned
+            s = w.jids[op[1] % len(w.jids)]
+            others = [j for j in w.jids if j != s]
+            r = others[op[2] % len(others)]
+            n_msgs += 1
+            body = "pinned-%d-%s" % (n_msgs, c03.marker(n_msgs, "b"))
+            ent = TextMessageProtocolEntity(body, to=r)
+            s_accepts, r_accepts = accepts(s, r), accepts(r, s)
+            if not clients[s].connected():
+                clients[s].connect()
+                A.settle(server, clients)
+            server.label_next_as_broadcast = True
+            err = clients[s].send(ent)
+            if err is not None:
+                out.fail("send", "send:raises:%s" % type(err).__name__, {"step": step, "error": repr(err)[:300]})
+                return out
+            if not A.settle(server, clients):
+                out.fail("drain", "queues_do_not_drain", {"step": step, "left": len(server.outq)})
+                return out
+            server.label_next_as_broadcast = False
+            got = [e for e in clients[r].app_got if e.getTag() == "message" and e.getId() == ent.getId()]
+            out.label("broadcast_labelled:" + ("accepted" if (s_accepts and r_accepts) else "sender_refuses" if not s_accepts else "recipient_refuses"))
+            if s in reinstalled or r in reinstalled:
+                traffic_after_reinstall.add((s, r))
+            if len(got) > 1 or (got and not (s_accepts and r_accepts)):
+                which = "message_encrypted_for_unaccepted_new_identity" if not s_accepts else "message_from_unaccepted_new_identity_delivered"
+                out.fail("pin", "pin:broadcast:%s" % (which if len(got) == 1 else "delivered_%d_times" % len(got)),
+                         {"step": step, "from": s, "to": r, "pin_sender": pin[s].get(r), "pin_recipient": pin[r].get(s), "versions": dict(w.version)})
+                return out
+            for owner, contact, ok in ((s, r, s_accepts), (r, s, r_accepts)):
+                got_pin = stored_pin(w.homes[owner], owner.split("@")[0], contact.split("@")[0])
+                prev = pin[owner].get(contact)
+                if got_pin is None:
+                    if prev is not None:
+                        out.fail("pin", "pin:remembered_identity_missing", {"step": step, "owner": owner, "contact": contact, "op": op[:3]})
+                        return out
+                elif prev is not None and got_pin == w.identity[(contact, prev)]:
+                    pass
+                elif ok and got_pin == w.identity[(contact, w.version[contact])]:
+                    pin[owner][contact] = w.version[contact]
+                else:
+                    out.fail("pin", "pin:stored_identity_%s" % ("replaced_by_new_identity_without_autotrust" if not ok else "differs"),
+                             {"step": step, "owner": owner, "contact": contact, "op": op[:3]})
+                    return out
+            # whatever was pinned under the broadcast address itself must not exist: identities belong to contacts
+            for owner in (s, r):
+                con = sqlite3.connect(db_path(w.homes[owner], owner.split("@")[0]))
+                try:
+                    ids = [row[0] for row in con.execute("SELECT recipient_id FROM identities WHERE recipient_id != -1")]
+                finally:
+                    con.close()
+                known = set(int(j.split("@")[0]) for j in w.jids)
+                extra = [i for i in ids if i not in known]
+                if extra:
+                    out.fail("pin", "pin:identity_recorded_under_a_name_that_is_no_contact", {"step": step, "owner": owner, "ids": [str(i) for i in extra]})
+                    return out
         elif kind == "reinstall":
             jid = w.jids[op[1] % len(w.jids)]
             w.reinstall(jid)
@@ -300,7 +360,8 @@ def script_strategy():
     sel = st.integers(0, 5)
     send = st.tuples(st.just("send"), sel, sel).map(list)
     gsend = st.tuples(st.just("gsend"), sel).map(list)
-    op = st.one_of(send, send, send, gsend, gsend, st.tuples(st.just("reinstall"), sel).map(list), st.tuples(st.just("restart"), sel).map(list),
+    bsend = st.tuples(st.just("bsend"), sel, sel).map(list)
+    op = st.one_of(send, send, send, gsend, gsend, bsend, st.tuples(st.just("reinstall"), sel).map(list), st.tuples(st.just("restart"), sel).map(list),
                    st.tuples(st.just("notify"), sel, sel).map(list))
 
     @st.composite
@@ -321,6 +382,9 @@ def _enum_basic():
         yield {"sub": "history", "accounts": 2, "autotrust": at, "seed": 3,
                "ops": [["send", 0, 0], ["send", 1, 0], ["notify", 0, 0], ["send", 0, 0], ["reinstall", 1], ["notify", 0, 0], ["send", 0, 0],
                        ["restart", 0], ["send", 0, 0], ["send", 1, 0]]}
+    for at in ([False, False], [None, True]):
+        yield {"sub": "history", "accounts": 2, "autotrust": at, "seed": 4,
+               "ops": [["send", 0, 0], ["send", 1, 0], ["bsend", 1, 0], ["reinstall", 1], ["bsend", 1, 0], ["send", 0, 0], ["restart", 0], ["bsend", 1, 0]]}
     yield {"sub": "history", "accounts": 3, "autotrust": [False, False, True], "seed": 2,
            "ops": [["send", 0, 0], ["send", 0, 1], ["send", 2, 0], ["reinstall", 0], ["send", 0, 0], ["send", 0, 1], ["send", 1, 0], ["send", 2, 0],
                    ["restart", 1], ["send", 0, 0]]}
